@@ -1003,8 +1003,34 @@ def run_extmodel(case):
     return r
 
 
+@guarded('C18')
+def run_extbig(case):
+    """Integers that a float64 cannot represent: the requested integer type must be parsed exactly."""
+    tools = _tools()
+    dt = case['dtype']
+    pr = np.dtype(dt[3:]) if dt.startswith('np:') else dt
+    vals = [int(v) for v in case['values']]
+    if case['supply'] == 'pos':
+        cmd = 'echo ' + ','.join('{%d}' % i for i in range(len(vals)))
+        op = tools.external_operation(cmd, process_result=pr, sep=',')
+        got = op(*vals)
+    else:
+        names = ['v%d' % i for i in range(len(vals))]
+        cmd = 'echo ' + ','.join('{%s}' % n for n in names)
+        op = tools.external_operation(cmd, process_result=pr, sep=',')
+        got = op(**dict(zip(names, vals)))
+    got = np.asarray(got)
+    exp = np.array(vals, dtype=np.dtype(dt[3:] if dt.startswith('np:') else dt))
+    if got.dtype != exp.dtype:
+        return bad('C18:external:dtype-mismatch', {'case': case, 'got': str(got.dtype), 'expected': str(exp.dtype)})
+    if got.shape != exp.shape or [int(v) for v in got.tolist()] != vals:
+        return bad('C18:external:large-integer-output-not-parsed-exactly',
+                   {'case': case, 'command': cmd, 'got': [int(v) for v in np.ravel(got).tolist()], 'expected': vals})
+    return ok(outcome=digest((dt, vals)), subprocess_calls=1)
+
+
 RUNNERS = {'vec': run_vec, 'vec1': run_vec1, 'vecseq': run_vecseq, 'model': run_model, 'ext': run_ext,
-           'extseed': run_extseed, 'extvec': run_extvec, 'extmodel': run_extmodel}
+           'extseed': run_extseed, 'extvec': run_extvec, 'extmodel': run_extmodel, 'extbig': run_extbig}
 
 
 def replay(case):
@@ -1126,6 +1152,19 @@ def run(ctx):
                                       'supply_modes': ['kw', 'meta+random_state'], 'cases': len(cases),
                                       'skipped_seed_does_not_fit_dtype': skipped}
     section(run_ext, cases, 'external', sample_every=max(1, len(cases) // 4))
+
+    # ---------------------------------------------------------------- integers beyond 2**53
+    big = {'int64': [2 ** 53 + 1, -(2 ** 53 + 1), 2 ** 63 - 1, -(2 ** 63) + 1, 2 ** 62 + 3],
+           'uint64': [2 ** 53 + 1, 2 ** 64 - 1, 2 ** 63 + 5]}
+    cases = []
+    for dt, vs in big.items():
+        for form in (dt, 'np:' + dt):
+            for supply in ('pos', 'kw'):
+                for k in range(1, len(vs) + 1):
+                    cases.append({'kind': 'extbig', 'dtype': form, 'supply': supply, 'values': vs[:k]})
+                    if not q:
+                        cases.append({'kind': 'extbig', 'dtype': form, 'supply': supply, 'values': vs[::-1][:k]})
+    section(run_extbig, cases, 'extbig')
 
     # ---------------------------------------------------------------- seeds
     cases = [{'kind': 'extseed', 'seed': base + k, 'consumed': c, 'bs': bs}
